@@ -267,6 +267,23 @@ class Interp:
             if eqc is not None and eqc[0] in self._eqconst:
                 same = self._eqconst[eqc[0]] == eqc[1]
                 return same if cond.op == '==' else not same
+        # a value fixed by an earlier equality decides later comparisons with constants (through value-preserving signed casts)
+        if cond.op in ('<', '>', '<=', '>=', '==', '!=') and len(cond.args) == 2 and self._eqconst:
+            a, b = cond.args
+            flip = False
+            if isinstance(a, int) and is_sym(b):
+                a, b, flip = b, a, True
+            if is_sym(a) and isinstance(b, int) and not isinstance(b, bool):
+                x = a
+                while is_sym(x) and x.op == 'cast' and x not in self._eqconst:
+                    ti = astdb.int_type_info(self.tu_desugar(_clean(x.ctype)))
+                    if ti is None or not ti[1] or ti[0] < 32:
+                        break
+                    x = x.args[0]
+                if x in self._eqconst:
+                    v = self._eqconst[x]
+                    l, r = (b, v) if flip else (v, b)
+                    return {'<': l < r, '>': l > r, '<=': l <= r, '>=': l >= r, '==': l == r, '!=': l != r}[cond.op]
         i = self._ndec
         self._ndec += 1
         loc = astdb.loc_str(node) if node is not None else '?'
@@ -906,6 +923,10 @@ class Interp:
         if qt.startswith('enum '):
             return 4
         fields, tag = self.record_fields(qt)
+        if fields is None and depth_ok(qt):
+            d = _clean(self.tu_desugar(qt))
+            if d != qt:
+                return self.sizeof(d)
         if fields is not None:
             # natural alignment layout
             off = 0
@@ -1279,6 +1300,10 @@ def leaf_abort(name):
         interp.event(name, tuple(_hashable(a) for a in args), node)
         raise PathAbort(name)
     return f
+
+
+def depth_ok(qt):
+    return len(qt) < 400
 
 
 def format_printf(fmt, args):
